@@ -369,7 +369,8 @@ fn xdev_slice(ctx: &mut Ctx) {
     mk("r/m/x", false);
     mk("r/m/d", true);
     mk("r/m/d/y", false);
-    let all = ["r", "r/a", "r/a/f", "r/m", "r/m/d", "r/m/d/y", "r/m/x", "r/z", "r/z/q"];
+    std::os::unix::fs::symlink("m", sbx.join("r/k")).unwrap();
+    let all = ["r", "r/a", "r/a/f", "r/k", "r/m", "r/m/d", "r/m/d/y", "r/m/x", "r/z", "r/z/q"];
     let below_mount = |p: &str| p.starts_with("r/m/");
     let cases: Vec<(Vec<&str>, Vec<&str>)> = {
         let mut v: Vec<(Vec<&str>, Vec<&str>)> = vec![];
@@ -379,10 +380,17 @@ fn xdev_slice(ctx: &mut Ctx) {
             v.push((vec![opt, "(", "-name", "m", "-prune", ")", "-o", "-print"], xdev.iter().copied().filter(|p| *p != "r/m").collect()));
             v.push((vec![opt, "-print", "-name", "m", "-prune"], xdev.clone()));
             v.push((vec![opt, "-name", "m", "-prune", "-print"], vec!["r/m"]));
+            v.push((vec![opt, "(", "-name", "k", "-prune", ")", "-o", "-print"], xdev.iter().copied().filter(|p| *p != "r/k").collect()));
             v.push((vec![opt, "(", "-name", "a", "-prune", ")", "-o", "-print"], xdev.iter().copied().filter(|p| !p.starts_with("r/a")).collect()));
-            v.push((vec![opt, "(", "-type", "d", "-name", "[am]", "-prune", ")", "-o", "-print"], vec!["r", "r/z", "r/z/q"]));
-            v.push((vec![opt, "-depth", "-print"], vec!["r/a/f", "r/a", "r/m", "r/z/q", "r/z", "r"]));
-            v.push((vec![opt, "-maxdepth", "1", "(", "-name", "m", "-prune", ")", "-o", "-print"], vec!["r", "r/a", "r/z"]));
+            v.push((vec![opt, "(", "-type", "d", "-name", "[am]", "-prune", ")", "-o", "-print"], vec!["r", "r/k", "r/z", "r/z/q"]));
+            v.push((vec![opt, "-depth", "-print"], vec!["r/a/f", "r/a", "r/k", "r/m", "r/z/q", "r/z", "r"]));
+            v.push((vec![opt, "-maxdepth", "1", "(", "-name", "m", "-prune", ")", "-o", "-print"], vec!["r", "r/a", "r/k", "r/z"]));
+        }
+        // under -L a link to a directory on the other file system is a directory that is not
+        // entered: pruning it must leave the later siblings alone
+        for opt in ["-xdev", "-mount"] {
+            v.push((vec!["-L", opt, "(", "-name", "k", "-prune", ")", "-o", "-print"], vec!["r", "r/a", "r/a/f", "r/m", "r/z", "r/z/q"]));
+            v.push((vec!["-L", opt, "-print"], vec!["r", "r/a", "r/a/f", "r/k", "r/m", "r/z", "r/z/q"]));
         }
         // without -xdev the mount is entered, and pruning it leaves its siblings alone too
         v.push((vec!["-print"], all.to_vec()));
@@ -391,8 +399,10 @@ fn xdev_slice(ctx: &mut Ctx) {
     };
     std::env::set_current_dir(&sbx).unwrap();
     for (expr, want) in cases {
-        let mut args: Vec<&str> = vec!["r", "-sorted"];
-        args.extend(expr.iter());
+        let (flags, rest): (&[&str], &[&str]) = if expr[0] == "-L" { (&expr[..1], &expr[1..]) } else { (&[], &expr[..]) };
+        let mut args: Vec<&str> = flags.to_vec();
+        args.extend(["r", "-sorted"]);
+        args.extend(rest.iter());
         let got = run_find(&args);
         ctx.rep.evaluations += 1;
         ctx.rep.nontrivial += 1;
